@@ -383,7 +383,7 @@ def run(ctx):
     ctx.guard("sweep", None, sweep, ctx)
     if ctx.shard == 0:
         ctx.guard("text", None, check_text_rule, ctx)
-    for i in ctx.mine(ctx.n(160, 20000)):
+    for i in ctx.mine(ctx.n(160, 12000)):
         r = ctx.rng("roundtrip", i)
         nm = r.choice([0, 1, 1, 2, 3, 4])
         case = {"modules": [gen_program(r, kind="module", budget=12) for _ in range(nm)],
